@@ -366,7 +366,8 @@ class Env:
                                    "mgmt": e._processes_management_lock, "shutdown_lock": e._shutdown_lock,
                                    "procs": e._processes, "flags": e._flags, "hwm": e._max_workers,
                                    "pending": e._pending_work_items, "running": e._running_work_items,
-                                   "work_ids": e._work_ids, "wakeup": e._executor_manager_thread_wakeup})
+                                   "work_ids": e._work_ids, "wakeup": e._executor_manager_thread_wakeup,
+                                   "submit_resize": getattr(e, "_submit_resize_lock", None)})
 
     def executor(self, max_workers=2, timeout=None, **kw):
         e = pe.ProcessPoolExecutor(max_workers, context=self.ctx, timeout=timeout, **kw)
